@@ -29,10 +29,14 @@ class ErrcModel(Model):
                 it.ev(fr, a, depth)
             it.act('FROM_CHARS', fr.f.loc(n))
             return self.result()
-        for a in args:
-            it.ev(fr, a, depth)
+        vals = [it.ev(fr, a, depth) for a in args]
         if obj is not None:
             it.ev(fr, obj, depth)
+        if callee.get('repo') and any(isinstance(v, Struct) and 'ec' in v.fields for v in vals):
+            it.act('DELEGATED', callee['id'])      # the result is handed to another repo function, whose own mapping is checked
+            if self.ec != 0:
+                from bsv.dtab import Thrown
+                raise Thrown('delegated')
         return TOP
 
     def construct(self, it, fr, n, depth):
@@ -95,6 +99,11 @@ def check(prog, rep, rule, under, floor_funcs):
                 raise AnalysisBroken('%s: no path through %s reaches the from_chars result' % (rule, short))
             bad = []
             for p in paths:
+                if p.outcome[0] == 'THROW' and str(p.outcome[1]) == 'delegated':
+                    dels = [a[1] for a in p.actions if a[0] == 'DELEGATED']
+                    if not any(d == g.id for d in dels for g, _, bp in ts if bp):
+                        bad.append('hands the result to %s, which is not checked' % dels[-1][:60])
+                    continue
                 if p.outcome[0] == 'THROW':
                     t = str(p.outcome[1])
                     want = 'std::out_of_range' if ecname == 'result_out_of_range' else 'std::invalid_argument'
